@@ -390,7 +390,7 @@ func Replay(t *testing.T, rep *kit.Report, beh kit.V, w *World, ad Adapter, labe
 		}
 		rep.Count(proto+"."+a, 1)
 		switch a {
-		case "Advance":
+		case "Init", "Advance":
 			w.mu.Lock()
 			w.Blk = uint64(st.Get("blk").Int())
 			w.mu.Unlock()
@@ -606,4 +606,115 @@ func GoID() string {
 		}
 	}
 	return s
+}
+
+// Interesting tells whether a behaviour exercises more than start-up
+// failures: somebody reached its slot, or an event was delivered.
+func Interesting(b kit.V) bool {
+	for _, s := range b.Get("steps").List() {
+		switch s.Get("a").Str() {
+		case "SlotReached", "Observe", "RelayTimeout":
+			return true
+		}
+	}
+	return false
+}
+
+// ReplaySlots drives the real function of every member of one slot case
+// (SlotCases) and checks (a) the block each member asks for against the
+// specification's slot function and (b) C47 directly on the observed blocks:
+// pairwise distinct, not before the reference block, relay entry slots
+// strictly before the timeout block.
+func ReplaySlots(t *testing.T, rep *kit.Report, c kit.V, w *World, ad Adapter) {
+	cs := c.Get("case")
+	proto := cs.Get("proto").Str()
+	n := cs.Get("n").Int()
+	ref := int64(cs.Get("ref").Int())
+	slots := c.Get("slots").Ints()
+	id := fmt.Sprintf("n=%d,step=%d,ref=%d,e=%d,timeout=%d,submitter=%d,challenge=%d,precedence=%d", n, cs.Get("step").Int(),
+		ref, cs.Get("e").Int(), cs.Get("timeout").Int(), cs.Get("submitter").Int(), cs.Get("challenge").Int(), cs.Get("precedence").Int())
+	w.mu.Lock()
+	w.Blk = uint64(ref)
+	w.mu.Unlock()
+	if ad.SingleCall() {
+		ad.Start(1, true)
+	} else {
+		for i := 1; i <= n; i++ {
+			ad.Start(i, true)
+		}
+	}
+	obs := make([]int64, n+1)
+	for i := 1; i <= n; i++ {
+		m := w.M(i)
+		if !Await(func() bool { x := m.snap(); return x.nreq > 0 || x.returned }) {
+			t.Fatalf("%s %s: member %d neither asked for its slot nor returned", proto, id, i)
+		}
+		obs[i] = m.snap().req
+	}
+	w.mu.Lock()
+	extra := append([]string{}, w.Extra...)
+	w.mu.Unlock()
+	if len(extra) > 0 {
+		rep.Diverge(proto+":unexpected-call:"+id, "unexpected chain interaction: "+extra[0], cs.X, nil, extra)
+	}
+	nontrivial := ""
+	if n > 1 {
+		nontrivial = proto + ":" + id
+	}
+	rep.Eval(nontrivial, map[string]interface{}{"case": cs.X, "observed": obs[1:]})
+	rep.Count(proto+".slotcases", 1)
+	rep.Count(proto+".slots", n)
+	bad := 0
+	for i := 1; i <= n && bad < 3; i++ {
+		if obs[i] != int64(slots[i-1]) {
+			bad++
+			rep.Diverge(fmt.Sprintf("%s:slot:%s,i=%d", proto, id, i),
+				fmt.Sprintf("%s: member %d of %d asked the block counter for block %d; its slot is %d", proto, i, n, obs[i], slots[i-1]),
+				cs.X, slots, obs[1:])
+		}
+	}
+	seen := map[int64]int{}
+	for i := 1; i <= n; i++ {
+		if obs[i] < 0 {
+			continue
+		}
+		if j, dup := seen[obs[i]]; dup && bad < 6 {
+			bad++
+			rep.Diverge(fmt.Sprintf("%s:shared-slot:%s,i=%d,j=%d", proto, id, j, i),
+				fmt.Sprintf("%s: members %d and %d share slot %d for the same reference block %d", proto, j, i, obs[i], ref),
+				cs.X, slots, obs[1:])
+		}
+		seen[obs[i]] = i
+		if obs[i] < ref && bad < 6 {
+			bad++
+			rep.Diverge(fmt.Sprintf("%s:slot-before-reference:%s,i=%d", proto, id, i),
+				fmt.Sprintf("%s: member %d waits for block %d, before the reference block %d", proto, i, obs[i], ref),
+				cs.X, slots, obs[1:])
+		}
+		if proto == "relayEntry" && obs[i] >= ref+int64(cs.Get("timeout").Int()) && bad < 6 {
+			bad++
+			rep.Diverge(fmt.Sprintf("%s:slot-at-timeout:%s,i=%d", proto, id, i),
+				fmt.Sprintf("relay entry: member %d of %d (entry mod n = %d) waits for block %d, which is not before the relay "+
+					"entry timeout block %d", i, n, cs.Get("e").Int(), obs[i], ref+int64(cs.Get("timeout").Int())),
+				cs.X, slots, obs[1:])
+		}
+	}
+	// cleanup: everybody is told that somebody succeeded
+	w.mu.Lock()
+	w.Done = true
+	w.mu.Unlock()
+	for i := 1; i <= n; i++ {
+		m := w.M(i)
+		if x := m.snap(); x.started && !x.returned {
+			n0 := x.nsub
+			if ad.Deliver(i, true) {
+				Settle(func() bool { return m.snap().returned })
+				if m.snap().nsub > n0 {
+					rep.Diverge(fmt.Sprintf("%s:submit-after-observe:%s,i=%d", proto, id, i),
+						fmt.Sprintf("%s: member %d submitted after it was told that somebody else succeeded", proto, i), cs.X, nil, nil)
+				}
+			}
+		}
+	}
+	ad.Close()
 }
